@@ -30,3 +30,12 @@ claim("C14", "exploration",
       "Every generated record is encoded by the real builders and also sent through the real PUB sockets to ZMQ SUB sockets; an independent encoding/binary decoder at the documented offsets must recover every field bit for bit (incl. NaN/Inf), and a subscriber filtered on a 2-byte channel prefix must get all and only that channel's messages. Thorough runs under the race detector (checkptr on the unsafe slice conversions).",
       "Trusts libzmq's in-order delivery on one connection and the document's table (48-byte summary header).",
       "independent decoder over messages observed on a real ZMQ SUB socket; checkptr in thorough", "DESIGN.md §3 C14")
+
+claim("C15", "exploration",
+      "Deterministic generator pass in package packets: random bytes, hand-assembled headers with every TLV type (shape without format, empty/multi-type/unknown formats, bad sizes, truncation), mutations of the repository's captured packets and of constructor-built packets go through ReadPacket and every accessor (a panic is a violation; consumed bytes are counted); constructor-built packets (16/32/64 bit, 1-4 dims, offsets, sequence numbers, timestamps) must round-trip. Thorough runs the same pass under the race build (checkptr).",
+      "Generator-driven, not coverage-guided (native Go fuzzing is not wired in); timestamp rates are positive and finite.",
+      "totality + round-trip oracle over generated/mutated inputs; checkptr in thorough", "DESIGN.md §3 C15")
+claim("C18", "exploration",
+      "Histories of Write/Read/ReadMultipleOf/ReadAll/DiscardStride on a real shared-memory ring (separate writer and reader handles), sizes 2..4096, operation sizes around the full/empty boundaries; every byte identifies its stream position and reads are compared with a reference byte queue (no skip, repeat, reorder; multiples; stride boundary; pointer never moves backwards).",
+      "Single-threaded histories (the property is about sequences of calls); chunk/stride 0 is outside the API domain. Thorough runs under the race build (checkptr on the mmap descriptor).",
+      "reference byte-queue oracle over recorded operation histories; checkptr in thorough", "DESIGN.md §3 C18")
